@@ -201,6 +201,12 @@ impl Decider {
   pub fn public_check(&self, which: u8, domain_id: u16, topic_name: &str) -> Result<(bool, bool), String> {
     public_check(&self.ac, self.handle, which, domain_id, topic_name)
   }
+
+  /// Plain accessor for C17 (sec_mr.rs): hands the hand-built plugin state and its permissions
+  /// handle on, so that a SecurityPlugins object can be put around it.
+  pub fn into_parts(self) -> (AccessControlBuiltin, PermissionsHandle) {
+    (self.ac, self.handle)
+  }
 }
 
 // ---- the real entry points, fed with signed documents --------------------------------------
